@@ -11,6 +11,8 @@ import (
 	"fmt"
 	"io"
 	"math"
+	"os"
+	"path/filepath"
 	"sort"
 	"strings"
 
@@ -24,7 +26,23 @@ import (
 
 // ---------------------------------------------------------------- Coq printers
 
-func coqNs(xs []uint64) string { return hx.CoqNList(xs) }
+// long value lists are printed as (cum first [wrapped deltas]) when that is shorter; cum
+// (C13/Spec.v) rebuilds the absolute 64-bit values by running sums mod 2^64
+func coqNs(xs []uint64) string {
+	plain := hx.CoqNList(xs)
+	if len(xs) < 4 {
+		return plain
+	}
+	ds := make([]uint64, len(xs)-1)
+	for i := 1; i < len(xs); i++ {
+		ds[i-1] = xs[i] - xs[i-1]
+	}
+	alt := fmt.Sprintf("(cum %d %s)", xs[0], hx.CoqNList(ds))
+	if len(alt) < len(plain) {
+		return alt
+	}
+	return plain
+}
 func coqOptNs(xs []uint64, ok bool) string {
 	if !ok {
 		return "None"
@@ -108,6 +126,67 @@ func guard(f func()) (panicked bool) {
 	}()
 	f()
 	return false
+}
+
+
+// ---------------------------------------------------------------- buffer reuse / dirty buffers
+//
+// The model is a pure function of the values. Every encoder that accepts a destination
+// buffer, or that can be Reset and reused, is therefore ALSO run with dirty buffers
+// (pre-filled with 0xFF / 0x01 / a byte pattern; capacity smaller than, equal to and larger
+// than needed; zero and non-zero length) and through reuse after encoding an unrelated
+// "polluting" sequence. The bytes must be identical to those of the fresh encode; the first
+// variant whose output differs REPLACES the recorded bytes (and the decodes are taken from
+// it), so the Coq comparison with the model sees it.
+
+func filled(n int, pat byte) []byte {
+	b := make([]byte, n)
+	for i := range b {
+		switch pat {
+		case 2:
+			b[i] = byte(37*i + 11) | 1
+		default:
+			b[i] = pat
+		}
+	}
+	return b
+}
+
+// destination buffers for an output of `need` bytes
+func dirtyBufs(need int) [][]byte {
+	return [][]byte{
+		filled(need/2, 0xFF)[:0],
+		filled(need, 0x01)[:0],
+		filled(need+37, 0xFF)[:0],
+		filled(need+64, 2)[:0],
+		filled(need+9, 0xFF), // non-zero length, larger than needed
+		filled(need, 0x01),   // non-zero length, exactly as needed
+	}
+}
+
+type encRes struct {
+	b  []byte
+	ok bool
+}
+
+// pick returns the clean result unless some variant differs from it (then that variant).
+func pick(o *hx.Out, kind string, clean encRes, eq func(a, b []byte) bool, variants []func() encRes) encRes {
+	if eq == nil {
+		eq = bytes.Equal
+	}
+	for _, v := range variants {
+		var r encRes
+		if guard(func() { r = v() }) {
+			o.Count(kind + ":reuse_variant_PANIC")
+			return encRes{nil, false}
+		}
+		o.Count(kind + ":reuse_variants_checked")
+		if r.ok != clean.ok || (r.ok && !eq(r.b, clean.b)) {
+			o.Count(kind + ":reuse_variant_DIFFERS")
+			return encRes{append([]byte{}, r.b...), r.ok}
+		}
+	}
+	return clean
 }
 
 // ---------------------------------------------------------------- sequences
@@ -404,6 +483,40 @@ func runTime(o *hx.Out, d seqDesc, origin string) {
 			bb, bbOK = append([]byte{}, b...), true
 		}
 	})
+	if len(in) > 0 {
+		var vs []func() encRes
+		for _, db := range dirtyBufs(len(bb)) {
+			db := db
+			vs = append(vs, func() encRes {
+				b, err := tsm1.TimeArrayEncodeAll(i64s(in), db)
+				return encRes{b, err == nil}
+			})
+		}
+		r := pick(o, "time_batch", encRes{bb, bbOK}, nil, vs)
+		bb, bbOK = r.b, r.ok
+		// iterator encoder reused after an unrelated sequence (three different layouts)
+		vs = nil
+		for _, pol := range [][]uint64{{^uint64(0), 1, 1 << 62, 77, 5}, {1000, 2000, 3000, 4000, 5000, 6000, 7000}, {9, 8, 1<<60 + 3, 4}} {
+			pol := pol
+			vs = append(vs, func() encRes {
+				e := tsm1.NewTimeEncoder(4)
+				for k := 0; k < len(in)/len(pol)+2; k++ {
+					for _, v := range pol {
+						e.Write(int64(v) + int64(k))
+					}
+				}
+				e.Bytes()
+				e.Reset()
+				for _, v := range in {
+					e.Write(int64(v))
+				}
+				b, err := e.Bytes()
+				return encRes{b, err == nil}
+			})
+		}
+		r = pick(o, "time_iter", encRes{ib, ibOK}, nil, vs)
+		ib, ibOK = r.b, r.ok
+	}
 	iter := func(b []byte, ok bool) (string, bool) {
 		if !ok {
 			return dobsN(in, nil, true)
@@ -477,6 +590,45 @@ func runInt(o *hx.Out, d seqDesc, origin string) {
 			bb, bbOK = append([]byte{}, b...), true
 		}
 	})
+	if len(in) > 0 {
+		var vs []func() encRes
+		for _, db := range dirtyBufs(len(bb)) {
+			db := db
+			vs = append(vs, func() encRes {
+				var b []byte
+				var err error
+				if d.Uns {
+					b, err = tsm1.UnsignedArrayEncodeAll(append([]uint64(nil), in...), db)
+				} else {
+					b, err = tsm1.IntegerArrayEncodeAll(i64s(in), db)
+				}
+				return encRes{b, err == nil}
+			})
+		}
+		r := pick(o, "int_batch", encRes{bb, bbOK}, nil, vs)
+		bb, bbOK = r.b, r.ok
+		vs = nil
+		for _, pol := range [][]uint64{{^uint64(0), 1, 1 << 62, 77, 5}, {7, 7, 7, 7, 7, 7}, {1, 2, 4, 8, 16}} {
+			pol := pol
+			vs = append(vs, func() encRes {
+				e := tsm1.NewIntegerEncoder(4)
+				for k := 0; k < len(in)/len(pol)+2; k++ {
+					for _, v := range pol {
+						e.Write(int64(v))
+					}
+				}
+				e.Bytes()
+				e.Reset()
+				for _, v := range in {
+					e.Write(int64(v))
+				}
+				b, err := e.Bytes()
+				return encRes{b, err == nil}
+			})
+		}
+		r = pick(o, "int_iter", encRes{ib, ibOK}, nil, vs)
+		ib, ibOK = r.b, r.ok
+	}
 	iter := func(b []byte, ok bool) (string, bool) {
 		if !ok {
 			return dobsN(in, nil, true)
@@ -562,6 +714,52 @@ func runBool(o *hx.Out, d boolDesc, origin string) {
 		b, _ := tsm1.BooleanArrayEncodeAll(in, nil)
 		bb = append([]byte{}, b...)
 	})
+	{
+		// BooleanArrayEncodeAll sets/clears only the bits it owns: with a dirty destination the
+		// unused low bits of the LAST byte keep what was there. The decoders never look at them
+		// (count-limited), so the comparison masks exactly those padding bits; everything else
+		// must be identical, and the decodes below are taken from the dirty bytes.
+		eqPad := func(a, b []byte) bool {
+			if len(a) != len(b) {
+				return false
+			}
+			if bytes.Equal(a, b) {
+				return true
+			}
+			pad := (8 - len(in)%8) % 8
+			if pad == 0 || len(a) == 0 || !bytes.Equal(a[:len(a)-1], b[:len(b)-1]) {
+				return false
+			}
+			o.Count("bool_batch:dirty_padding_bits_kept")
+			m := byte(0xFF) << uint(pad)
+			return a[len(a)-1]&m == b[len(b)-1]&m
+		}
+		var vs []func() encRes
+		for _, db := range dirtyBufs(len(bb)) {
+			db := db
+			vs = append(vs, func() encRes {
+				b, err := tsm1.BooleanArrayEncodeAll(in, db)
+				return encRes{b, err == nil}
+			})
+		}
+		r := pick(o, "bool_batch", encRes{bb, true}, eqPad, vs)
+		bb = r.b
+		vs = []func() encRes{func() encRes {
+			e := tsm1.NewBooleanEncoder(1)
+			for k := 0; k < len(in)+13; k++ {
+				e.Write(true)
+			}
+			e.Bytes()
+			e.Reset()
+			for _, v := range in {
+				e.Write(v)
+			}
+			b, err := e.Bytes()
+			return encRes{b, err == nil}
+		}}
+		r = pick(o, "bool_iter", encRes{ib, true}, nil, vs)
+		ib = r.b
+	}
 	obs := func(got []bool, errd bool) (string, bool) {
 		if !errd && eqB(got, in) {
 			return "DSame", true
@@ -639,6 +837,35 @@ func runStr(o *hx.Out, d strDesc, origin string) {
 			bb = append([]byte{}, b...)
 		}
 	})
+	{
+		var vs []func() encRes
+		if len(in) > 0 { // EncodeStringArrayBlock returns early for no values; the empty shortcut leaves b[1] unwritten
+			for _, db := range dirtyBufs(len(bb) + tot + 16) {
+				db := db
+				vs = append(vs, func() encRes {
+					b, err := tsm1.StringArrayEncodeAll(in, db)
+					return encRes{b, err == nil}
+				})
+			}
+			r := pick(o, "str_batch", encRes{bb, true}, nil, vs)
+			bb = r.b
+		}
+		vs = []func() encRes{func() encRes {
+			e := tsm1.NewStringEncoder(1)
+			for k := 0; k < len(in)+3; k++ {
+				e.Write("\xff\x01polluting-string\xff")
+			}
+			e.Bytes()
+			e.Reset()
+			for _, v := range in {
+				e.Write(v)
+			}
+			b, err := e.Bytes()
+			return encRes{b, err == nil}
+		}}
+		r := pick(o, "str_iter", encRes{ib, true}, nil, vs)
+		ib = r.b
+	}
 	pre := func(b []byte) (byte, []byte) {
 		if len(b) == 0 {
 			return 255, nil
@@ -825,6 +1052,35 @@ func runFloat(o *hx.Out, d seqDesc, origin string) {
 			bb, bbOK = append([]byte{}, b...), true
 		}
 	})
+	{
+		var vs []func() encRes
+		for _, db := range dirtyBufs(len(bb)) {
+			db := db
+			vs = append(vs, func() encRes {
+				b, err := tsm1.FloatArrayEncodeAll(append([]float64(nil), fl...), db)
+				return encRes{b, err == nil}
+			})
+		}
+		r := pick(o, "float_batch", encRes{bb, bbOK}, nil, vs)
+		bb, bbOK = r.b, r.ok
+		vs = []func() encRes{func() encRes {
+			e := tsm1.NewFloatEncoder()
+			for k := 0; k < len(in)+5; k++ {
+				e.Write(math.Float64frombits(0xFFEFFFFFFFFFFFFF ^ uint64(k)*0x0101010101010101))
+			}
+			e.Flush()
+			e.Bytes()
+			e.Reset()
+			for _, v := range fl {
+				e.Write(v)
+			}
+			e.Flush()
+			b, err := e.Bytes()
+			return encRes{b, err == nil}
+		}}
+		r = pick(o, "float_iter", encRes{ib, ibOK}, nil, vs)
+		ib, ibOK = r.b, r.ok
+	}
 	iter := func(b []byte, ok bool) (string, bool) {
 		if !ok {
 			return dobsN(in, nil, true)
@@ -918,6 +1174,18 @@ func runBlock(o *hx.Out, d blockDesc, origin string) {
 			block, blockOK = append([]byte{}, b...), true
 		}
 	})
+	if blockOK {
+		var vs []func() encRes
+		for _, db := range dirtyBufs(len(block)) {
+			db := db
+			vs = append(vs, func() encRes {
+				b, err := vals.Encode(db)
+				return encRes{b, err == nil}
+			})
+		}
+		r := pick(o, "block", encRes{block, blockOK}, nil, vs)
+		block, blockOK = r.b, r.ok
+	}
 	same := func(t int64, v interface{}, i int) bool {
 		if t != int64(d.Ts[i]) {
 			return false
@@ -1273,6 +1541,47 @@ func runWalEntry(o *hx.Out, d entryDesc, origin string) {
 	o.Count("walentry:" + d.Kind)
 	o.Emit(hx.Case{Kind: "walentry", Coq: coq, Desc: d, Obs: map[string]interface{}{"payload_bytes": len(payload), "marshal_ok": ok, "rt": rt},
 		Nontrivial: true, Sig: "we:" + d.coq(), Origin: origin})
+	if !ok {
+		return
+	}
+	// Encode(dst) into dirty destinations (what WAL.writeToLog does with pooled buffers). A
+	// result that is not byte-identical to MarshalBinary's (a Go map may also be walked in
+	// another order) is recorded as a case of its own, so the model judges it.
+	for vi, db := range dirtyBufs(len(payload)) {
+		var p2 []byte
+		ok2 := false
+		guard(func() {
+			b, err := d.build().Encode(db)
+			if err == nil {
+				p2, ok2 = append([]byte{}, b...), true
+			}
+		})
+		o.Count("walentry:encode_dirty_dst_checked")
+		if ok2 && bytes.Equal(p2, payload) {
+			continue
+		}
+		rt2 := 3
+		if ok2 {
+			guard(func() {
+				e := fresh(d.Kind)
+				if err := e.UnmarshalBinary(append([]byte{}, p2...)); err != nil {
+					rt2 = 2
+					return
+				}
+				got, okd := describe(e)
+				if okd && got.coq() == d.coq() {
+					rt2 = 0
+				} else {
+					rt2 = 1
+				}
+			})
+		}
+		o.Count("walentry:encode_dirty_dst_recorded")
+		coq := fmt.Sprintf("CWalEntry %s %s %d", d.coq(), coqOptBytes(p2, ok2), rt2)
+		o.Emit(hx.Case{Kind: "walentry", Coq: coq, Desc: d, Obs: map[string]interface{}{"payload_bytes": len(p2), "marshal_ok": ok2, "rt": rt2, "dirty_dst_variant": vi},
+			Nontrivial: true, Sig: fmt.Sprintf("we-dirty%d:%s", vi, d.coq()), Origin: origin})
+		break
+	}
 }
 
 // one frame (typ, snappy(payload)) fed to the real WALSegmentReader
@@ -1359,37 +1668,133 @@ func genUnm(r *hx.Rand) unmDesc {
 type cutDesc struct {
 	Entries []entryDesc `json:"entries"`
 	Cuts    []int       `json:"cuts,omitempty"` // empty = every offset
+	ViaWAL  bool        `json:"via_wal,omitempty"` // write through the real tsm1.WAL (pooled buffers, real segment file)
+	Ends    bool        `json:"ends,omitempty"`    // cuts = frame boundaries +-4 only
+}
+
+// writeViaWAL pushes the entries through WAL.WriteMulti / Delete / DeleteRange and returns
+// the bytes of the segment file.
+func writeViaWAL(d cutDesc) ([]byte, error) {
+	dir, err := os.MkdirTemp("", "h_c13_wal")
+	if err != nil {
+		return nil, err
+	}
+	defer os.RemoveAll(dir)
+	w := tsm1.NewWAL(dir)
+	if err := w.Open(); err != nil {
+		return nil, err
+	}
+	for _, ed := range d.Entries {
+		switch e := ed.build().(type) {
+		case *tsm1.WriteWALEntry:
+			_, err = w.WriteMulti(e.Values)
+		case *tsm1.DeleteWALEntry:
+			_, err = w.Delete(e.Keys)
+		case *tsm1.DeleteRangeWALEntry:
+			_, err = w.DeleteRange(e.Keys, e.Min, e.Max)
+		}
+		if err != nil {
+			w.Close()
+			return nil, err
+		}
+	}
+	if err := w.Close(); err != nil {
+		return nil, err
+	}
+	names, _ := filepath.Glob(filepath.Join(dir, "*.wal"))
+	sort.Strings(names)
+	var all []byte
+	for _, n := range names {
+		b, err := os.ReadFile(n)
+		if err != nil {
+			return nil, err
+		}
+		all = append(all, b...)
+	}
+	return all, nil
 }
 
 func runWalCut(o *hx.Out, d cutDesc, origin string) {
 	o.Begin("walcut", d)
-	var seg bytes.Buffer
-	w := tsm1.NewWALSegmentWriter(nopCloser{&seg})
 	var tbl []string
 	var ends []int
+	var segb []byte
 	want := make([]string, len(d.Entries))
 	for i, ed := range d.Entries {
 		want[i] = ed.coq()
-		var p []byte
-		if guard(func() { p, _ = ed.build().MarshalBinary() }) {
-			return // entry outside the encoder's domain: not a log the WAL can contain
-		}
-		comp := snappy.Encode(nil, p)
-		e := ed.build()
-		if err := w.Write(e.Type(), comp); err != nil {
-			panic(err)
-		}
-		tbl = append(tbl, fmt.Sprintf("(%s,%s)", coqB(p), coqB(comp)))
-		prev := 0
-		if len(ends) > 0 {
-			prev = ends[len(ends)-1]
-		}
-		ends = append(ends, prev+5+len(comp))
 	}
-	w.Flush()
-	segb := append([]byte{}, seg.Bytes()...)
+	if d.ViaWAL {
+		var err error
+		var panicked bool
+		panicked = guard(func() { segb, err = writeViaWAL(d) })
+		if panicked || err != nil {
+			o.Count("walcut:via_wal_write_failed")
+			return
+		}
+		// independent frame parse of the real file: (payload, compressed) per frame
+		for off := 0; off+5 <= len(segb); {
+			l := int(binary.BigEndian.Uint32(segb[off+1 : off+5]))
+			if off+5+l > len(segb) {
+				break
+			}
+			comp := segb[off+5 : off+5+l]
+			p, err := snappy.Decode(nil, comp)
+			if err != nil {
+				break
+			}
+			tbl = append(tbl, fmt.Sprintf("(%s,%s)", coqB(p), coqB(comp)))
+			off += 5 + l
+			ends = append(ends, off)
+		}
+	} else {
+		var seg bytes.Buffer
+		w := tsm1.NewWALSegmentWriter(nopCloser{&seg})
+		for i, ed := range d.Entries {
+			var p []byte
+			if guard(func() {
+				if i%2 == 0 {
+					p, _ = ed.build().MarshalBinary()
+				} else { // every other entry through Encode into a dirty, larger-than-needed buffer
+					e := ed.build()
+					p, _ = e.Encode(filled(e.MarshalSize()+23, 0xFF))
+				}
+			}) {
+				return // entry outside the encoder's domain: not a log the WAL can contain
+			}
+			comp := snappy.Encode(nil, p)
+			e := ed.build()
+			if err := w.Write(e.Type(), comp); err != nil {
+				panic(err)
+			}
+			tbl = append(tbl, fmt.Sprintf("(%s,%s)", coqB(p), coqB(comp)))
+			prev := 0
+			if len(ends) > 0 {
+				prev = ends[len(ends)-1]
+			}
+			ends = append(ends, prev+5+len(comp))
+		}
+		w.Flush()
+		segb = append([]byte{}, seg.Bytes()...)
+	}
 	cuts := d.Cuts
-	if len(cuts) == 0 {
+	if d.Ends {
+		set := map[int]bool{0: true, len(segb): true}
+		prev := 0
+		for _, e := range ends {
+			for dlt := -4; dlt <= 4; dlt++ {
+				set[e+dlt] = true
+			}
+			set[prev+5] = true
+			prev = e
+		}
+		cuts = nil
+		for c := range set {
+			if c >= 0 && c <= len(segb) {
+				cuts = append(cuts, c)
+			}
+		}
+		sort.Ints(cuts)
+	} else if len(cuts) == 0 {
 		for c := 0; c <= len(segb); c++ {
 			cuts = append(cuts, c)
 		}
@@ -1438,6 +1843,9 @@ func runWalCut(o *hx.Out, d cutDesc, origin string) {
 	}
 	coq := fmt.Sprintf("CWalCut [%s] [%s] %s [%s]", strings.Join(ents, ";"), strings.Join(tbl, ";"), coqB(segb), strings.Join(obs, ";"))
 	o.Count(fmt.Sprintf("walcut:entries<=%d", bucket(len(d.Entries))))
+	if d.ViaWAL {
+		o.Count("walcut:via_real_WAL")
+	}
 	o.Stats["walcut:truncations"] += len(obs)
 	o.Emit(hx.Case{Kind: "walcut", Coq: coq, Desc: d, Obs: map[string]interface{}{"segment_bytes": len(segb), "truncations": len(obs), "all_prefix_replays": allOK},
 		Nontrivial: len(d.Entries) > 0, Sig: fmt.Sprintf("wc:%x:%d", segb, len(obs)), Origin: origin})
@@ -1494,6 +1902,96 @@ func genCut(r *hx.Rand, long bool) cutDesc {
 	return d
 }
 
+
+// sameLayout returns an entry with the same byte layout as e whose values are all "low"
+// (false / 0 / zero bytes): written after e through a recycled buffer, any byte the encoder
+// forgets to store shows up as e's old byte.
+func sameLayout(e entryDesc, high bool) entryDesc {
+	n := entryDesc{Kind: e.Kind, Min: e.Min, Max: e.Max}
+	fill := func(k []byte) []byte {
+		c := make([]byte, len(k))
+		for i := range c {
+			if high {
+				c[i] = 0xFF
+			} else {
+				c[i] = 'a' // keys stay distinct per position below
+			}
+		}
+		return c
+	}
+	for _, k := range e.Keys {
+		n.Keys = append(n.Keys, append([]byte{}, k...))
+	}
+	if !high && e.Kind == "delrange" {
+		n.Min, n.Max = 0, 0
+	}
+	for _, kv := range e.KVs {
+		c := kvDesc{Key: append([]byte{}, kv.Key...), Typ: kv.Typ}
+		for i := range kv.Ts {
+			if high {
+				c.Ts = append(c.Ts, ^uint64(0)>>1)
+			} else {
+				c.Ts = append(c.Ts, 0)
+			}
+			switch kv.Typ {
+			case "bool":
+				if high {
+					c.Nums = append(c.Nums, 1)
+				} else {
+					c.Nums = append(c.Nums, 0)
+				}
+			case "str":
+				c.Strs = append(c.Strs, fill(kv.Strs[i]))
+				if !high {
+					for q := range c.Strs[i] {
+						c.Strs[i][q] = 0
+					}
+				}
+			case "float":
+				if high {
+					c.Nums = append(c.Nums, 0xFFEFFFFFFFFFFFFF)
+				} else {
+					c.Nums = append(c.Nums, 0)
+				}
+			default:
+				if high {
+					c.Nums = append(c.Nums, ^uint64(0))
+				} else {
+					c.Nums = append(c.Nums, 0)
+				}
+			}
+		}
+		n.KVs = append(n.KVs, c)
+	}
+	return n
+}
+
+// genWalPath: logs written through the real WAL. Each base entry is followed by entries of
+// the same layout with all-high, all-low and flipped values, so a recycled pool buffer always
+// holds different bytes at the same positions.
+func genWalPath(r *hx.Rand) cutDesc {
+	d := cutDesc{ViaWAL: true, Ends: true}
+	for i, n := 0, 1+r.Intn(3); i < n; i++ {
+		base := smallEntry(r)
+		if base.Kind == "write" && r.Chance(60) { // bias to booleans: one byte per value
+			for j := range base.KVs {
+				if r.Chance(60) {
+					kv := &base.KVs[j]
+					kv.Typ, kv.Strs, kv.Nums = "bool", nil, nil
+					for range kv.Ts {
+						kv.Nums = append(kv.Nums, uint64(r.Intn(2)))
+					}
+				}
+			}
+		}
+		d.Entries = append(d.Entries, sameLayout(base, true), base, sameLayout(base, false), sameLayout(base, true), sameLayout(base, false))
+		if r.Chance(50) {
+			d.Entries = append(d.Entries, base)
+		}
+	}
+	return d
+}
+
 // ---------------------------------------------------------------- main
 
 func designed(o *hx.Out) {
@@ -1515,7 +2013,7 @@ func designed(o *hx.Out) {
 		}
 		return append(v, tail...)
 	}
-	for _, n := range []int{59, 60, 61, 119, 120, 121, 239, 240, 241, 359, 360, 361, 479, 480, 481} {
+	for _, n := range []int{59, 60, 61, 119, 120, 121, 239, 240, 241, 360, 480, 481} {
 		for ti, tail := range [][]uint64{nil, {2}, {1, 1, 7}, {1 << 59}} {
 			runS8b(o, seqDesc{Vals: ones(n, tail...)}, "designed")
 			runS8b(o, seqDesc{Vals: append(append([]uint64{}, tail...), ones(n)...)}, "designed")
@@ -1588,6 +2086,20 @@ func designed(o *hx.Out) {
 	runWalEntry(o, entryDesc{Kind: "write"}, "designed")
 	runWalEntry(o, entryDesc{Kind: "write", KVs: []kvDesc{{Key: []byte("k"), Typ: "int"}}}, "designed")
 	runWalEntry(o, entryDesc{Kind: "write", KVs: []kvDesc{{Key: []byte("k"), Typ: "bool", Ts: []uint64{1, 2}, Nums: []uint64{1, 0}}}}, "designed")
+	// the real write path: the same boolean field true, then false, then mixed (pooled buffers)
+	bkv := func(vals ...uint64) entryDesc {
+		ts := make([]uint64, len(vals))
+		for i := range ts {
+			ts[i] = uint64(1000 + i)
+		}
+		return entryDesc{Kind: "write", KVs: []kvDesc{{Key: []byte("cpu,host=a#!~#on"), Typ: "bool", Ts: ts, Nums: vals}}}
+	}
+	runWalCut(o, cutDesc{ViaWAL: true, Ends: true, Entries: []entryDesc{bkv(1, 1, 1, 1), bkv(0, 0, 0, 0), bkv(1, 0, 1, 0), bkv(0, 1, 0, 1), bkv(0, 0, 0, 0)}}, "designed")
+	runWalCut(o, cutDesc{ViaWAL: true, Ends: true, Entries: []entryDesc{
+		{Kind: "delrange", Keys: [][]byte{[]byte("cpu,host=a#!~#on")}, Min: ^uint64(0) >> 1, Max: ^uint64(0) >> 1},
+		{Kind: "delrange", Keys: [][]byte{[]byte("cpu,host=a#!~#on")}, Min: 0, Max: 0},
+		{Kind: "delete", Keys: [][]byte{[]byte("cpu,host=a#!~#on"), []byte("mem")}},
+		{Kind: "delete", Keys: [][]byte{[]byte("aaaaaaaaaaaaaaaa"), []byte("mem")}}}}, "designed")
 	for typ := 0; typ <= 5; typ++ {
 		runWalUnm(o, unmDesc{Typ: byte(typ)}, "designed")
 		runWalUnm(o, unmDesc{Typ: byte(typ), Payload: []byte{1, 0, 1, 'k', 0, 0, 0, 1, 0, 0, 0, 0, 0, 0, 0, 5, 0, 0, 0, 0, 0, 0, 0, 9}}, "designed")
@@ -1716,7 +2228,11 @@ func main() {
 		case 18:
 			runWalCut(o, genCut(r, false), "gen")
 		default:
-			runWalCut(o, genCut(r, i%80 == 19), "gen")
+			if i%40 == 19 {
+				runWalCut(o, genCut(r, i%80 == 19), "gen")
+			} else {
+				runWalCut(o, genWalPath(r), "gen")
+			}
 		}
 	}
 }
